@@ -28,7 +28,8 @@ PROPS = {
                   "quick: u8 and usize; thorough: all six word types",
         "outside": "rejected calls leaving contents unchanged (no unwinding in Kani); len*width >= 2^64; more than 4 backing words; "
                    "iterator items beyond the first three from a given start",
-        "assumptions": ["from_raw_parts pre-states satisfy the documented contract len*width <= bits of the backend"],
+        "assumptions": ["from_raw_parts pre-states satisfy the documented contract len*width <= bits of the backend",
+                    "from_slice harnesses: alloc::fmt::format and Backtrace::capture are stubbed (error message irrelevant; 25 min -> 20 s)"],
     },
     "C10": {
         "engine": "kani", "module": "c10", "feature": "c10", "jobs": 12,
